@@ -153,7 +153,7 @@ def run(ctx):
         ok1 = ok2 = False
         for blk, e, pc in rs:
             if e == "1_usize":
-                ok1 = all(ctx._sat(d, r"discr\(self\)=\('not-in', \('Multiple',\)\)") for d in pc)
+                ok1 = all(ctx._sat(d, ("ne", r"^discr\(self\)$", "Multiple")) for d in pc)
             elif "::sum(" in e:
                 ok2 = all(ctx._sat(d, r"discr\(self\)=Multiple$") for d in pc) and "fn darling_core::error::Error::len" in e and "(self as Multiple).0" in e
         ctx.ob("C04.len.leaf-is-one", f.key, "return 1", ok1 and len(rs) == 2, "returns %s" % [(e[:80], [sorted(d) for d in pc]) for _, e, pc in rs])
